@@ -1270,11 +1270,13 @@ func LookupFieldFmt(dataType asetypes.DataType) (FieldFmt, error) {
 	switch dataType {
 	case asetypes.BIGDATETIMEN:
 		f = &BigDateTimeNFieldFmt{}
+		f.setMaxLength(8)
 		// Based on the default output when string formatting time.Date
 		// with padding for e.g. GMT+10
 		f.setDisplayMaxLength(32)
 	case asetypes.BIGTIMEN:
 		f = &BigTimeNFieldFmt{}
+		f.setMaxLength(8)
 		// Based on the default output when string formatting time.Date
 		// with padding for e.g. GMT+10
 		f.setDisplayMaxLength(32)
@@ -1375,23 +1377,28 @@ func LookupFieldFmt(dataType asetypes.DataType) (FieldFmt, error) {
 		f = &CharFieldFmt{}
 	case asetypes.DATEN:
 		f = &DateNFieldFmt{}
+		f.setMaxLength(4)
 		// Based on the default output when string formatting time.Date
 		// with padding for e.g. GMT+10
 		f.setDisplayMaxLength(32)
 	case asetypes.DATETIMEN:
 		f = &DateTimeNFieldFmt{}
+		f.setMaxLength(8)
 		// Based on the default output when string formatting time.Date
 		// with padding for e.g. GMT+10
 		f.setDisplayMaxLength(32)
 	case asetypes.FLTN:
 		f = &FltNFieldFmt{}
+		f.setMaxLength(8)
 		// Educated guess, no sane and precise default possible
 		f.setDisplayMaxLength(20)
 	case asetypes.INTN:
 		f = &IntNFieldFmt{}
+		f.setMaxLength(8)
 		f.setDisplayMaxLength(20)
 	case asetypes.UINTN:
 		f = &UintNFieldFmt{}
+		f.setMaxLength(8)
 		f.setDisplayMaxLength(20)
 	case asetypes.LONGBINARY:
 		f = &LongBinaryFieldFmt{}
@@ -1400,12 +1407,14 @@ func LookupFieldFmt(dataType asetypes.DataType) (FieldFmt, error) {
 		f = &LongCharFieldFmt{}
 	case asetypes.MONEYN:
 		f = &MoneyNFieldFmt{}
+		f.setMaxLength(8)
 		// Maximum for MONEY with sign
 		f.setDisplayMaxLength(18)
 	case asetypes.SENSITIVITY:
 		f = &SensitivityFieldFmt{}
 	case asetypes.TIMEN:
 		f = &TimeNFieldFmt{}
+		f.setMaxLength(4)
 		// Based on the default output when string formatting time.Date
 		// with padding for e.g. GMT+10
 		f.setDisplayMaxLength(32)
